@@ -96,6 +96,9 @@ pub enum K2Mode {
     /// public protocols: the signer's PUBLIC key bytes with one bit flipped (Ed25519 32 bytes, P-384 49 bytes;
     /// the RSA key stays another pair: a DER alias of the same key would not be "another key")
     PubBitNeighbour(usize),
+    /// v1.public: the signer's RSA public key inside bytes that are not a key encoding (junk prefix of 1 / 24 /
+    /// 32 bytes that is not a SubjectPublicKeyInfo header, junk suffix, truncation)
+    PubJunk(usize),
     Zero,
     Ones,
 }
@@ -121,7 +124,7 @@ pub fn make_instance(spec: &InstSpec, pairs: &[(String, String)], r: &mut StdRng
     match spec.k2 {
         K2Mode::Random => r.fill(&mut sym2),
         K2Mode::BitNeighbour(bit) => sym2[(bit / 8) % 32] ^= 1 << (bit % 8),
-        K2Mode::PubBitNeighbour(_) => r.fill(&mut sym2),
+        K2Mode::PubBitNeighbour(_) | K2Mode::PubJunk(_) => r.fill(&mut sym2),
         K2Mode::Zero => sym2 = [0u8; 32],
         K2Mode::Ones => sym2 = [0xff; 32],
     }
@@ -133,6 +136,24 @@ pub fn make_instance(spec: &InstSpec, pairs: &[(String, String)], r: &mut StdRng
     let mut keys = HashMap::new();
     keys.insert("k1".to_string(), conc::keymat_from(sym1, rsa1));
     keys.insert("k2".to_string(), conc::keymat_from(sym2, rsa2));
+    if let K2Mode::PubJunk(variant) = spec.k2 {
+        let mut km = conc::keymat_from(sym2, rsa1);
+        let pk = conc::keymat_from(sym1, rsa1).rsa_pk;
+        let fill: u8 = [0x00, 0xff, 0x30, 0x5a][variant % 4];
+        km.rsa_pk = match (variant / 4) % 6 {
+            0 => [vec![fill; 24], pk].concat(),
+            1 => [vec![fill; 1], pk].concat(),
+            2 => [vec![fill; 32], pk].concat(),
+            3 => [pk, vec![fill; 24]].concat(),
+            4 => pk[..pk.len() - 1].to_vec(),
+            _ => {
+                let mut x: Vec<u8> = (0..24).map(|_| r.gen()).collect();
+                x[0] |= 0x80; // never the 0x30 that starts a DER SEQUENCE
+                [x, pk].concat()
+            }
+        };
+        keys.insert("k2".to_string(), km);
+    }
     if let K2Mode::PubBitNeighbour(bit) = spec.k2 {
         let mut km = conc::keymat_from(sym1, rsa1);
         km.sym = sym2;
